@@ -491,6 +491,19 @@ pub async fn run_behaviour(b: &Value, dir: Option<PathBuf>) -> Vec<Value> {
                     w.full_sync(i).await;
                 }
             }
+            "Trim" => {
+                // the server discards its oldest versions (up to the one of its snapshot)
+                let n: usize = s["urg"].as_str().and_then(|x| x.parse().ok()).unwrap_or(0);
+                let ok = {
+                    let c = w.ctx.borrow();
+                    let sv = c.snapshot.as_ref().map(|(v, _)| crate::model::ver_index(&c.ids, *v)).unwrap_or(0);
+                    n > c.trimmed && (n as i64) <= sv
+                };
+                if ok {
+                    w.ctx.borrow_mut().trimmed = n;
+                    w.emit(json!({"a":"Trim","n":n}));
+                }
+            }
             "Expire" => {
                 let i = w.idx(s["r"].as_str().unwrap());
                 if !w.nodes[i].running {
